@@ -223,6 +223,8 @@ def known_match(finding, case):
         return False
     if "reason_regex" in m and not re.search(m["reason_regex"], case.reason or ""):
         return False
+    if "lines" in m and case.line not in m["lines"]:
+        return False
     if "pred" in m:
         try:
             if not eval(m["pred"], {"__builtins__": {"int": int, "len": len}}, {"t": case.line.split(), "impl": case.impl}):
